@@ -408,3 +408,114 @@ def show(t, limit=220):
         return k + "(" + ", ".join(r(x) for x in t[1:]) + ")"
     s = r(t)
     return s if len(s) <= limit else s[:limit] + "..."
+
+
+# --------------------------------------------------------------------------------------------
+# Laurent-polynomial normal form over opaque atoms
+# --------------------------------------------------------------------------------------------
+def laurent(t, depth=0):
+    """Normal form {monomial: coefficient} of a value graph built from +, -, *, / and integer
+    powers; every other node is an opaque atom.  A monomial is a sorted tuple of (atom, exponent)
+    with non-zero integer exponents; coefficients are Fractions.  Division is only expanded when
+    the divisor is a single monomial (otherwise the divisor becomes an atom with exponent -1).
+
+    Equal normal forms <=> the two expressions are equal as Laurent polynomials in their atoms
+    (exact arithmetic; floating-point evaluation may differ by rounding)."""
+    from fractions import Fraction
+
+    def const(c):
+        return {(): Fraction(c)} if c != 0 else {}
+
+    def atom(a):
+        return {((repr(a), 1),): Fraction(1)}
+
+    def add(p, q, sign=1):
+        out = dict(p)
+        for m, c in q.items():
+            out[m] = out.get(m, 0) + sign * c
+            if out[m] == 0:
+                del out[m]
+        return out
+
+    def mulmono(m1, m2):
+        d = dict(m1)
+        for a, e in m2:
+            d[a] = d.get(a, 0) + e
+            if d[a] == 0:
+                del d[a]
+        return tuple(sorted(d.items()))
+
+    def mul(p, q):
+        out = {}
+        for m1, c1 in p.items():
+            for m2, c2 in q.items():
+                m = mulmono(m1, m2)
+                out[m] = out.get(m, 0) + c1 * c2
+                if out[m] == 0:
+                    del out[m]
+        return out
+
+    def inv(p, orig):
+        if len(p) == 1:
+            (m, c), = p.items()
+            return {tuple(sorted((a, -e) for a, e in m)): 1 / c}
+        return {((repr(("sum", orig)), -1),): Fraction(1)}
+
+    def power(p, n, orig):
+        if n == 0:
+            return const(1)
+        if n < 0:
+            return power(inv(p, orig), -n, orig)
+        out = const(1)
+        for _ in range(n):
+            out = mul(out, p)
+        return out
+
+    def num(s):
+        try:
+            f = Fraction(s)
+            return f
+        except (ValueError, ZeroDivisionError):
+            return None
+
+    def go(t):
+        if not isinstance(t, tuple) or not t:
+            return atom(t)
+        k = t[0]
+        if k == "const":
+            f = num(t[1])
+            return const(f) if f is not None else atom(t)
+        if k == "ac":
+            parts = [go(x) for x in t[2]]
+            if t[1] == "+":
+                out = {}
+                for p in parts:
+                    out = add(out, p)
+                return out
+            out = const(1)
+            for p in parts:
+                out = mul(out, p)
+            return out
+        if k == "neg":
+            return {m: -c for m, c in go(t[1]).items()}
+        if k == "inv":
+            return inv(go(t[1]), t[1])
+        if k == "bin" and t[1] == "Pow" and isinstance(t[3], tuple) and t[3][0] == "const":
+            f = num(t[3][1])
+            if f is not None and f.denominator == 1 and abs(f.numerator) <= 8:
+                return power(go(t[2]), f.numerator, t[2])
+        return atom(t)
+    return go(t)
+
+
+def algebraically_equal(a, b):
+    return laurent(a) == laurent(b)
+
+
+def show_poly(p, limit=200):
+    terms = []
+    for m, c in sorted(p.items(), key=lambda x: repr(x[0])):
+        mon = "*".join((a if e == 1 else f"{a}^{e}") for a, e in m) or "1"
+        terms.append(f"{c}*{mon}" if c != 1 else mon)
+    s = " + ".join(terms)
+    return s if len(s) <= limit else s[:limit] + "..."
